@@ -92,6 +92,12 @@ type simCluster struct {
 	closed    bool
 	logAppend bool // LogAppendTime: responses carry a timestamp
 
+	noHold bool // conducted replay left its behaviour: requests are no longer held
+	// conducted replay: a produce request WITHOUT any batch (the idempotent producer forces an empty buffer out on an epoch
+	// roll-over) is answered at once, is not numbered and takes no plan; the conductor is told (broker index)
+	onEmptyProduce func(broker int32)
+	reqIDs         map[int]map[int][]int // produce request number -> partition -> ids it carries
+
 	initPidFault   string
 	fetchPlans     map[string]*simFetchPlan
 	abortedReverse bool
@@ -204,6 +210,40 @@ func (c *simCluster) Release(n int) {
 	}
 }
 
+// LiftHolds lets every held produce request proceed and stops holding later ones (fail-open of a conducted replay).
+func (c *simCluster) LiftHolds() {
+	c.mu.Lock()
+	c.noHold = true
+	for _, h := range c.holds {
+		select {
+		case <-h:
+		default:
+			close(h)
+		}
+	}
+	c.mu.Unlock()
+}
+
+// ReqIDs returns the content of produce request n as it arrived: partition -> ids.
+func (c *simCluster) ReqIDs(n int) map[int][]int {
+	c.mu.Lock()
+	defer c.mu.Unlock()
+	return c.reqIDs[n]
+}
+
+// ReqSeen reports whether produce request n has been received (decoded) by some broker.
+func (c *simCluster) ReqSeen(n int) bool {
+	c.mu.Lock()
+	h := c.seenChan(n)
+	c.mu.Unlock()
+	select {
+	case <-h:
+		return true
+	default:
+		return false
+	}
+}
+
 // WaitReq waits until produce request n has been received (decoded) by some broker.
 func (c *simCluster) WaitReq(n int, d time.Duration) bool {
 	c.mu.Lock()
@@ -243,6 +283,7 @@ func (b *simBroker) serve() {
 		if tc, ok := conn.(*net.TCPConn); ok {
 			_ = tc.SetLinger(0)
 		}
+		conn = condServerConn(conn)
 		b.mu.Lock()
 		b.cons[conn] = true
 		b.mu.Unlock()
@@ -518,6 +559,16 @@ func (pt *simPart) seqDecision(b *simBatchIn) (string, int64) {
 func (c *simCluster) handleProduce(b *simBroker, r *ProduceRequest, wire int) (encoderWithHeader, string) {
 	batches := c.decodeBatches(r)
 	c.mu.Lock()
+	if c.onEmptyProduce != nil && len(batches) == 0 {
+		c.rec.Ev("recv", kv{"req": 0, "broker": int(b.idx), "batches": []kv{}, "wire": wire, "nmsgs": 0, "acks": int(r.RequiredAcks), "ver": int(r.Version)})
+		c.onEmptyProduce(b.idx)
+		c.rec.Ev("reply", kv{"req": 0, "kinds": [][]interface{}{}})
+		c.mu.Unlock()
+		if r.RequiredAcks == NoResponse {
+			return nil, ""
+		}
+		return &ProduceResponse{Version: r.Version}, ""
+	}
 	c.produceN++
 	n := c.produceN
 	plan := c.plans[n]
@@ -526,11 +577,16 @@ func (c *simCluster) handleProduce(b *simBroker, r *ProduceRequest, wire int) (e
 	}
 	evb := []kv{}
 	total := 0
+	if c.reqIDs == nil {
+		c.reqIDs = map[int]map[int][]int{}
+	}
+	c.reqIDs[n] = map[int][]int{}
 	for _, bt := range batches {
 		ids := []int{}
 		for _, x := range bt.recs {
 			ids = append(ids, x.id)
 		}
+		c.reqIDs[n][int(bt.part)] = ids
 		total += len(ids)
 		evb = append(evb, kv{"part": int(bt.part), "ids": ids, "pid": int(bt.pid), "epoch": int(bt.epoch), "seq": int(bt.seq), "kvbytes": bt.kvLen})
 	}
@@ -542,7 +598,7 @@ func (c *simCluster) handleProduce(b *simBroker, r *ProduceRequest, wire int) (e
 		close(seen)
 	}
 	var hold chan struct{}
-	if plan.Hold {
+	if plan.Hold && !c.noHold {
 		hold = c.holdChan(n)
 	}
 	c.mu.Unlock()
